@@ -21,6 +21,7 @@ import (
 	"github.com/emersion/go-imap/v2/imapserver/imapmemserver"
 	"github.com/emersion/go-imap/v2/verifh/kit/ev"
 	"github.com/emersion/go-imap/v2/verifh/kit/srv"
+	"github.com/emersion/go-imap/v2/verifh/kit/tok"
 	"pgregory.net/rapid"
 )
 
@@ -239,4 +240,127 @@ func TestReplayMemDisconnect(t *testing.T) {
 	}
 	ev.EvalN(int64(n + 1))
 	ev.NonTrivial("replay:mem-backend-client-gone-inside-body-literal")
+}
+
+// TestPropIdlePeerStalls: a peer idles on a mailbox, stops reading (the
+// server's writes to it block, as on a socket whose buffers are full) and
+// later vanishes, while a second, well-behaved connection keeps changing the
+// same mailbox. Every command of the second connection completes, and once
+// the first peer is gone its connection is closed, its session is closed
+// exactly once and no server goroutine is left.
+func TestPropIdlePeerStalls(t *testing.T) {
+	rapid.Check(t, func(t *rapid.T) {
+		w := getMemWorld(t)
+		w.mu.Lock()
+		before := len(w.closes)
+		w.mu.Unlock()
+		nBefore := rapid.SampledFrom([]int{0, 0, 1, 5}).Draw(t, "updatesBeforeStall")
+		nStalled := rapid.SampledFrom([]int{1, 10, 63, 64, 65, 66, 67, 70, 100, 150}).Draw(t, "updatesWhileStalled")
+		idle := rapid.IntRange(0, 5).Draw(t, "idle") != 0 // otherwise the peer just sits in the selected state
+		end := rapid.SampledFrom([]string{"reset", "reset", "close", "resume-logout"}).Draw(t, "end")
+		kind := rapid.SampledFrom([]string{"store", "store", "append-expunge"}).Draw(t, "changes")
+		what := fmt.Sprintf("peer A %s on INBOX, stops reading, peer B makes %d+%d %s changes, A ends with %s",
+			map[bool]string{true: "idles", false: "selected"}[idle], nBefore, nStalled, kind, end)
+
+		a, b := w.env.Dial(), w.env.Dial()
+		defer a.C.Close()
+		defer b.C.Close()
+		for _, r := range []*srv.Raw{a, b} {
+			if _, err := r.Greeting(); err != nil {
+				t.Fatalf("%s: no greeting: %v", what, err)
+			}
+			for i, c := range []string{"LOGIN u p", "SELECT INBOX"} {
+				if _, st, err := r.Cmd(fmt.Sprintf("p%d", i), c); err != nil || st.Status != "OK" {
+					t.Fatalf("%s: %s: %v %v", what, c, st, err)
+				}
+			}
+		}
+		if idle {
+			a.Send("i1 IDLE\r\n")
+			if _, err := a.Until(func(l *tok.Line) bool { return l.IsCont }); err != nil {
+				t.Fatalf("%s: IDLE: no continuation request: %v", what, err)
+			}
+		}
+		n := 0
+		change := func(phase string) {
+			n++
+			var cmds []string
+			if kind == "store" {
+				op := "+"
+				if n%2 == 0 {
+					op = "-"
+				}
+				cmds = []string{fmt.Sprintf("STORE 1 %sFLAGS (stalltest)", op)}
+			} else {
+				cmds = []string{"APPEND INBOX (\\Deleted) {3+}\r\nx\r\n", "EXPUNGE"}
+			}
+			for _, c := range cmds {
+				tag := fmt.Sprintf("b%d", n)
+				if _, st, err := b.Cmd(tag, c); err != nil || st.Status != "OK" {
+					_, dump := serverGoroutines()
+					t.Fatalf("%s: B's command %d (%s, %s) did not complete: %v %v; goroutines:\n%s", what, n, strings.Fields(c)[0], phase, st, err, clipDump(dump))
+				}
+			}
+		}
+		for i := 0; i < nBefore; i++ {
+			change("A reading")
+		}
+		a.C.StallPeerWrites(true)
+		for i := 0; i < nStalled; i++ {
+			change("A not reading")
+		}
+		switch end {
+		case "reset":
+			a.C.BreakPeerWrites(errors.New("write: broken pipe"))
+			a.C.Reset(errors.New("connection reset by peer"))
+		case "close":
+			a.C.Close()
+		case "resume-logout":
+			a.C.StallPeerWrites(false)
+			if idle {
+				a.Send("DONE\r\n")
+			}
+			a.Send("z LOGOUT\r\n")
+		}
+		if !a.WaitServerClosed(10 * time.Second) {
+			_, dump := serverGoroutines()
+			t.Fatalf("%s: the server did not close A's connection within 10s; goroutines:\n%s", what, clipDump(dump))
+		}
+		// B is still served
+		change("A gone")
+		if _, st, err := b.Cmd("bz", "LOGOUT"); err != nil || st.Status != "OK" {
+			t.Fatalf("%s: B's LOGOUT: %v %v", what, st, err)
+		}
+		if !b.WaitServerClosed(10 * time.Second) {
+			t.Fatalf("%s: the server did not close B's connection after LOGOUT", what)
+		}
+		deadline := time.Now().Add(5 * time.Second)
+		for {
+			g, dump := serverGoroutines()
+			if g == 0 {
+				break
+			}
+			if time.Now().After(deadline) {
+				t.Fatalf("%s: %d server goroutine(s) still alive after both peers are gone:\n%s", what, g, clipDump(dump))
+			}
+			time.Sleep(200 * time.Microsecond)
+		}
+		w.mu.Lock()
+		defer w.mu.Unlock()
+		if len(w.closes) != before+2 {
+			t.Fatalf("%s: expected two sessions, got %d", what, len(w.closes)-before)
+		}
+		for _, c := range w.closes[before:] {
+			if k := atomic.LoadInt64(c); k != 1 {
+				t.Fatalf("%s: a session was closed %d times", what, k)
+			}
+		}
+		ev.Eval()
+		ev.NonTrivial("idlestall:" + what)
+		ev.Class("idle-peer-stalls:end=" + end)
+		if nStalled > 64 {
+			ev.Class("idle-peer-stalls:more than 64 updates while not reading")
+		}
+		ev.Sample(what)
+	})
 }
